@@ -30,24 +30,29 @@ def run(ck):
     ck.add("traces_validated_against_impl", len(uniq))
     # I: free-running goroutines under the race detector
     rounds, maxg = (150, 8) if q else (3000, 16)
-    rc, out, err = vlib.vh(["race-run", "-seed", str(ck.seed), "-rounds", str(rounds), "-max", str(maxg)], race=True, timeout=3000,
-                           env={"GORACE": "halt_on_error=0 exitcode=0"}, check=False)
+    procs = 5 if q else 20       # several processes: each one begins with a concurrent cold start
     import json
-    rr = None
-    try:
-        rr = json.loads(out)
-    except Exception:
-        fatal = re.search(r"fatal error: (concurrent map [a-z ]+)", err)
-        if fatal and "github.com/GuanceCloud/platypus/" in err:
-            # the Go runtime killed the process because two goroutines used one map at once inside the code under test:
-            # that is the data race itself, observed without the detector's help
-            frames = re.findall(r"github.com/GuanceCloud/platypus/[^\s(]+", err[fatal.start():])
-            ck.disagreement("datarace-fatal:" + "|".join(frames[:2]), {"part": "race detector", "fatal": fatal.group(1), "report": err[fatal.start():][:6000]})
-        else:
-            raise vlib.Broken("race-run produced no summary (rc=%d):\n%s" % (rc, err[-3000:]))
-    if rr is not None:
-        absorb(ck, rr, "race-detector-runs")
-        ck.note("goroutine_runs", rr["extra"])
+    err_all = ""
+    for pi in range(procs):
+        rc, out, err = vlib.vh(["race-run", "-seed", str(ck.seed * 1000 + pi), "-rounds", str(rounds // procs), "-max", str(maxg)], race=True,
+                               timeout=3000, env={"GORACE": "halt_on_error=0 exitcode=0"}, check=False)
+        err_all += err
+        rr = None
+        try:
+            rr = json.loads(out)
+        except Exception:
+            fatal = re.search(r"fatal error: (concurrent map [a-z ]+)", err)
+            if fatal and "github.com/GuanceCloud/platypus/" in err:
+                # the Go runtime killed the process because two goroutines used one map at once inside the code under test:
+                # that is the data race itself, observed without the detector's help
+                frames = re.findall(r"github.com/GuanceCloud/platypus/[^\s(]+", err[fatal.start():])
+                ck.disagreement("datarace-fatal:" + "|".join(frames[:2]), {"part": "race detector", "fatal": fatal.group(1), "report": err[fatal.start():][:6000]})
+            else:
+                raise vlib.Broken("race-run produced no summary (rc=%d):\n%s" % (rc, err[-3000:]))
+        if rr is not None:
+            absorb(ck, rr, "race-detector-runs")
+            ck.note("goroutine_runs", rr["extra"])
+    err = err_all
     reports = re.findall(r"WARNING: DATA RACE.*?={18}", err, flags=re.S)
     for rep in reports[:5]:
         # identify the race by the first two platypus frames it names
@@ -57,10 +62,11 @@ def run(ck):
     ck.cov["rule"] = ("S: TLC enumerates all interleavings of %s runs x %d gated steps of one published script (ownership invariants "
                       "ExclusiveOwner/TreeFrozen hold in the model); each schedule is replayed with the exit-signal poll as scheduler gate "
                       "on a shared loaded script that uses grok, add_pattern, use(), load_json, collections and renames, each run on a "
-                      "private pooled point, and every run's result must equal its sequential result. I: %d rounds of 2..%d free-running "
+                      "private pooled point, and every run's result must equal its sequential result. I: %d processes, each beginning with a "
+                      "concurrent cold start (the first parses, loads and runs of the process happen at once), then together %d rounds of 2..%d free-running "
                       "goroutines with random start offsets mixing parses/loads of 8 fixed sources (valid, syntax error, lexical "
                       "error, rejected operand) and of freshly generated sources never parsed before in the process (unique names, "
                       "numbers, strings, keywords in random letter case, some broken) with runs of the shared script, under Go's race "
                       "detector; any report is a violation, and every concurrent parse must return what the same parse returns alone. "
-                      "distinct = schedules / rounds." % (threads, steps, rounds, maxg))
+                      "distinct = schedules / rounds." % (threads, steps, procs, rounds, maxg))
     ck.assumptions += ["absence of data races is observational: only schedules the detector saw", "gating adds synchronisation at polls only"]
